@@ -189,8 +189,12 @@ class Builder(NullCell):
         if isinstance(address, str):
             address = Address(address)
 
+        if len(address.hash_part) != 32:  # address:bits256
+            raise ValueError(f'account id of an internal address is 32 bytes long, got {len(address.hash_part)}')
         if address.anycast is not None:
-            # addr_std$10 + just$1 + anycast_info$_ depth:(#<= 30) rewrite_pfx:(bits depth)
+            # addr_std$10 + just$1 + anycast_info$_ depth:(#<= 30) { depth >= 1 } rewrite_pfx:(bits depth)
+            if not 1 <= address.anycast.depth <= 30:
+                raise ValueError(f'anycast depth is 1..30, got {address.anycast.depth}')
             self.store_bits('101').store_uint(address.anycast.depth, 5)
             self.store_uint(address.anycast.rewrite_pfx, address.anycast.depth)
         else:
